@@ -40,7 +40,7 @@ URLGEN = {
     "userinfo": [cp(x) for x in ["", "u@", "u:p@", "U%41:p%40w@", ":p@"]],
     "host": [cp(x) for x in ["example.com", "EXAMPLE.COM", "café.fr", "xn--caf-dma.fr", "Sub.Example.co.uk",
                               "CAFÉ.fr", "XN--CAF-DMA.FR", "xn--p1ai.münchen.example.com"]],
-    "port": [cp(x) for x in ["", ":80", ":443", ":8080", ":"]],
+    "port": [cp(x) for x in ["", ":80", ":443", ":8080", ":", ":0"]],
     "path": [cp(x) for x in ["", "/", "/s", "/s/", "/s/t", "/./s", "/s/../t", "//s", "/s//t/", "/s/.", "/s/t/..", "/../s",
                               "/s/%2e/t", "/a%20b/c d", "/S/T.html"]],
     "query": [cp(x) for x in ["", "?", "?k=v", "?k=v&j=w", "?k", "?k=", "?=v", "?k=v&&j=w", "?j=w&k=v", "?k=a=b", "?k=v&k=w"]],
@@ -214,8 +214,8 @@ C20 = {
                val("i", "1"), val("f", "1.5"), val("T", "True"), val("F", "False"), val("N", "None")],
     "keys": [cp(x) for x in ["hello", "k", "a&b", "q?=", "é", "x y", "number"]],
     "addarg_urls": [cp(x) for x in ["http://lemonde.fr", "http://lemonde.fr/", "http://lemonde.fr?x=1", "http://lemonde.fr/p?x=1&y=2#frag", "http://lemonde.fr#frag",
-                                     "lemonde.fr/p?", "http://lemonde.fr/p?x=a%20b#f?g"]],
-    "pathsplit": [cp(x) for x in ["", "/", "/a", "a/b", "/a/b/", "//a//b//", " /a/b ", "/a b/c"]],
+                                     "lemonde.fr/p?", "http://lemonde.fr/p?x=a%20b#f?g", "http://lemonde.fr#a#b", "http://lemonde.fr/p?x=1#/route#top"]],
+    "pathsplit": [cp(x) for x in ["", "/", "/a", "a/b", "/a/b/", "//a//b//", " /a/b ", "/a b/c", "//", "///", " / ", "/ /"]],
 }
 
 
@@ -407,7 +407,7 @@ def main():
     from ural.data import ISO_3166_1_COUNTRIES_ALPHA_2  # data the property is stated over, not logic
     NORM["countries"] = [cp(c.lower()) for c in sorted(ISO_3166_1_COUNTRIES_ALPHA_2)]
     for plat, v in C19["platforms"].items():
-        names = [dec_(x) for x in v["segs"]]
+        names = [dec_(x) for x in v["segs"]] + [""]          # the empty segment (a doubled slash) is a "too short" segment too
         v["routes"] = _routes(plat, names)
         v["segs"] = [cp(x) for x in names]
     with open(os.path.join(d, "c19.json"), "w") as f:
